@@ -477,7 +477,11 @@ func runCase(mode string) func(t *rapid.T, c *ev.Case) {
 		nt := map[string]bool{}
 		queries := func(t *rapid.T, n int) {
 			for i := 0; i < n; i++ {
-				q := genQuery(t, mode, !g.noOverwrite)
+				qmode := mode
+				if mode == "layers" {
+					qmode = rapid.SampledFrom([]string{"agg", "bucket", "bucket", "raw"}).Draw(t, "qmode")
+				}
+				q := genQuery(t, qmode, !g.noOverwrite)
 				if q.Fill == "previous" && q.Desc {
 					// fill(previous) under ORDER BY time DESC fills in output order (as InfluxDB does): the statement's
 					// "descending = ascending reversed" is not defined for it; left out, not a finding
@@ -563,6 +567,80 @@ func runCase(mode string) func(t *rapid.T, c *ev.Case) {
 				}
 				c.Sample(map[string]any{"query_shapes": keys, "some_queries": qs})
 			}
+		}
+		if mode == "layers" {
+			// the same small set of cells rewritten layer by layer: ordered file <- out-of-order file(s) <- memtable, so that a read has to
+			// fold an older out-of-order value under a newer one (aggregate cursors fold file by file, ascending and descending)
+			g.noOverwrite = false
+			// (tagSets[3] carries the tag dc: a predicate on a key that is no tag of the measurement at all is not part of the core
+			// subset - the identifier then denotes a field - so at least one series with every generated key always exists)
+			lser := append([]map[string]string{tagSets[3]}, tagSets[:rapid.IntRange(1, 3).Draw(t, "nser")]...)
+			nser := len(lser)
+			span := rapid.IntRange(6, 16).Draw(t, "span")
+			layer := func(label string, from, to, density int) []hist.PointJ {
+				g.request++
+				var ps []hist.PointJ
+				for s := 0; s < nser; s++ {
+					for k := from; k < to; k++ {
+						if rapid.IntRange(0, 9).Draw(t, label+"skip") >= density && !(label == "base" && k == from) {
+							continue // (the first cell of every series is always written in the base layer: every series and tag key exists)
+						}
+						p := hist.PointJ{Mst: mst, Tags: lser[s], T: k, Fields: map[string]string{}}
+						mask := rapid.SampledFrom([]int{15, 15, 4, 2, 6, 12, 1, 8}).Draw(t, "fieldmask")
+						for j, fn := range hist.FieldNames {
+							if mask&(1<<j) == 0 {
+								continue
+							}
+							small := rapid.IntRange(-4, 12).Draw(t, "val")
+							switch fn {
+							case "i":
+								p.Fields[fn] = fmt.Sprint(small)
+							case "f":
+								p.Fields[fn] = fmt.Sprintf("%g", float64(small)/4)
+							case "s":
+								p.Fields[fn] = fmt.Sprintf("v%d", small)
+							default:
+								p.Fields[fn] = fmt.Sprint(small%2 == 0)
+							}
+						}
+						ps = append(ps, p)
+					}
+				}
+				return ps
+			}
+			put := func(ps []hist.PointJ, flush bool, cls string) {
+				if len(ps) == 0 {
+					return
+				}
+				w.exec(Op{Kind: "write", Points: ps})
+				if flush {
+					w.exec(Op{Kind: "flush"})
+				}
+				c.Class(cls)
+			}
+			// ordered file: the upper part of the span (and sometimes everything)
+			lo := rapid.IntRange(0, span/2).Draw(t, "orderedFrom")
+			put(layer("base", lo, span+4, 8), true, "layer:ordered-file")
+			// 1-2 out-of-order files below / inside the flushed range
+			for k := 0; k < rapid.IntRange(1, 2).Draw(t, "nooo"); k++ {
+				put(layer("ooo", 0, span, 5), true, "layer:out-of-order-file")
+			}
+			// rewrites of the same cells that stay in the memtable
+			if rapid.IntRange(0, 3).Draw(t, "mem") > 0 {
+				put(layer("mem", 0, span, 4), false, "layer:memtable-over-out-of-order")
+			}
+			queries(t, rapid.IntRange(4, 8).Draw(t, "ql1"))
+			if rapid.Bool().Draw(t, "more") {
+				put(layer("ooo2", 0, span, 3), rapid.Bool().Draw(t, "flush2"), "layer:second-rewrite")
+				queries(t, rapid.IntRange(3, 6).Draw(t, "ql2"))
+			}
+			if rapid.IntRange(0, 2).Draw(t, "reorg") == 0 {
+				w.exec(Op{Kind: "flush"})
+				w.exec(Op{Kind: "reorg", Cmd: rapid.SampledFrom([]string{"merge", "all"}).Draw(t, "cmd")})
+				queries(t, rapid.IntRange(3, 5).Draw(t, "ql3"))
+			}
+			finish()
+			return
 		}
 		if mode == "limit" {
 			// dense series in several flushed generations (each generation continues where the previous one ended, per series),
@@ -671,6 +749,7 @@ func shapeOf(q qref.Query) string {
 
 func TestRawSelections(t *testing.T) { rapid.Check(t, ev.Prop(prop, "raw_selections", runCase("raw"))) }
 func TestAggregates(t *testing.T)    { rapid.Check(t, ev.Prop(prop, "aggregates", runCase("agg"))) }
+func TestOverwriteLayers(t *testing.T) { rapid.Check(t, ev.Prop(prop, "overwrite_layers", runCase("layers"))) }
 func TestLimitLayouts(t *testing.T)  { rapid.Check(t, ev.Prop(prop, "limit_layouts", runCase("limit"))) }
 func TestTimeBuckets(t *testing.T)   { rapid.Check(t, ev.Prop(prop, "time_buckets", runCase("bucket"))) }
 
